@@ -148,6 +148,11 @@ def check(ctx, rep):
     rep.ob('input.quote-agrees-with-writer', 'INPUT # takes a leading double quote of a string entry as the quote WRITE # puts there', okq and quote == b'"', norm(qa[0].value) if qa else '', ctx.where(ie))
     brk = [b for b in own_nodes(loops[0]) if isinstance(b, ast.Break)] if ok else []
     rep.ob('input.closing-quote-ends-entry', 'a quoted entry ends at the closing quote', any(fli.knows(b, "c == b'\"' and quoted", True) for b in brk), '', ctx.where(ie))
+    nxt = [a for a in own_nodes(loops[0]) if isinstance(a, ast.Assign) and norm(a.targets[0]) == 'c' and isinstance(a._parent, ast.If)
+           and norm(a._parent.test) == 'not quoted'] if ok else []
+    kinds = dict(('outside' if a in a._parent.body else 'inside', norm(a.value)) for a in nxt)
+    rep.ob('input.no-line-end-folding-inside-quotes', 'inside quotes the next byte is read raw; outside, CR LF is folded by read_one',
+           kinds == {'outside': 'self.read_one()', 'inside': 'self.read(1)'}, repr(kinds), ctx.where(ie))
     nul = [n for n in own_nodes(ie) if isinstance(n, ast.If) and norm(n.test) == "c == b'\\x00'"]
     rep.ob('input.nul-dropped', 'NUL bytes are dropped from entries', len(nul) == 1 and [norm(x) for x in nul[0].body] == ['pass'], '', ctx.where(ie))
     ipe = [r for r, c in ctx.raises_in(ie) if c == 'INPUT_PAST_END']
@@ -186,6 +191,8 @@ def variants(ctx):
            expect='write.numbers'),
         Va('input-splits-inside-quotes', 'break', DB,
            t('InputMixin.input_entry', lambda f: mu.replace_expr(f, mu.text_is("c in b',\\r' and (not quoted)"), "c in b',\\r'")), expect='input.entry-ends'),
+        Va('quoted-strings-lose-linefeeds', 'break', DB,
+           t('InputMixin.input_entry', lambda f: mu.replace_stmt(f, mu.text_is('c = self.read(1)'), 'c = self.read_one()')), expect='input.no-line-end-folding'),
         Va('input-keeps-nul', 'break', DB, t('InputMixin.input_entry', _keep_nul), expect='input.nul'),
         Va('input-past-end-silent', 'break', DB,
            t('InputMixin.input_entry', lambda f: mu.remove_stmt(f, lambda st: isinstance(st, ast.If) and 'INPUT_PAST_END' in norm(st))), expect='input.past-end'),
